@@ -532,12 +532,10 @@ Fixpoint render_attr_list (l : list (bytes * aval)) : option bytes :=
   end.
 
 (* ---- pug nodes ------------------------------------------------------------------------------------ *)
-Record closure := {
-  c_env : list (bytes * jv);
-  c_nodes : list pnode;
-  c_block : option closure_ref;
-}
-with closure_ref := CRef (c : closure).
+Inductive closure := Closure (env : list (bytes * jv)) (nodes : list pnode) (block : option closure).
+Definition c_env (c : closure) := let '(Closure e _ _) := c in e.
+Definition c_nodes (c : closure) := let '(Closure _ n _) := c in n.
+Definition c_block (c : closure) := let '(Closure _ _ b) := c in b.
 
 Record mixin := { m_params : list bytes; m_body : list pnode }.
 
@@ -784,7 +782,7 @@ Section Nodes.
         | None => SOk (s, mixins)
         | Some c =>
           (* the block runs with the caller's variables as they were at the call, and the caller's own block *)
-          sdo r <- sem_nodes f mixins (match c_block c with Some (CRef b) => Some b | None => None end)
+          sdo r <- sem_nodes f mixins (c_block c)
                              (with_env s (c_env c)) (c_nodes c);
           let '(s2, _) := r in SOk (with_env s2 (s_env s), mixins)
         end
@@ -823,8 +821,7 @@ Section Nodes.
           let callee_env := env_set (bind (m_params mx) argv globals) (B "attributes") (JO aloc) in
           let newblk := match body with
                         | [] => None
-                        | _ => Some {| c_env := s_env s3; c_nodes := body;
-                                       c_block := match blk with Some bb => Some (CRef bb) | None => None end |}
+                        | _ => Some (Closure (s_env s3) body blk)
                         end in
           sdo r <- sem_nodes f mixins newblk (with_env s3 callee_env) (m_body mx);
           let '(s4, _) := r in
